@@ -6,7 +6,8 @@
      [op |-> "render", m, cl, prefix, q, err]              to_query_str(m) returned q
    (all events carry all fields; unused ones are empty).  Total; first failing clause recorded:
      P:total          the call raised
-     P:empty_list     the code maps a name to an empty list of values
+     P:empty_list     the code maps a name to an empty list of values although the reference reading has
+                      values for it or does not know it (a name PRESENT WITH ZERO VALUES may be held so, or omitted)
      P:params         the code's mapping (names -> values) is not the reference reading
      P:render_alphabet  to_query_str produced something that is not a legal query string
      P:roundtrip      the rendered string does not read back (reference reading) as the mapping
@@ -23,7 +24,7 @@ Ev == T.ev[l]
 NoLits == {}
 TInit == tid \in 1..Len(Traces) /\ l = 1 /\ verdict = "ok"
 
-Got(e) == [entries |-> e.entries, blankcsv |-> FALSE]
+Got(e) == [entries |-> SelectSeq(e.entries, HasValues), zero |-> <<>>, blankcsv |-> FALSE]
 NameSeq(es) == [i \in 1..Len(es) |-> es[i].k]
 ShapeOf(es, n) == LET P == {i \in 1..Len(es) : es[i].k = n} IN es[MinOf(P)].shape
 
@@ -31,7 +32,7 @@ JudgeParse(e) ==
     LET x == Parse(e.q, e.kb, e.csv)
         g == Got(e)
     IN  IF e.err THEN "P:total"
-        ELSE IF \E i \in 1..Len(e.entries) : e.entries[i].v = <<>> THEN "P:empty_list"
+        ELSE IF \E i \in 1..Len(e.entries) : e.entries[i].v = <<>> /\ e.entries[i].k \notin ZeroNames(x) THEN "P:empty_list"
         ELSE IF ~SameMapping(g, x) THEN "P:params"
         ELSE IF x.blankcsv THEN "ok"
         ELSE IF \E n \in Names(x) : ShapeOf(e.entries, n) # ShapeOf(x.entries, n) THEN "D:shape"
@@ -55,7 +56,7 @@ Judge(e) == CASE e.op = "parse" -> JudgeParse(e)
 
 Export(e) == (e.op = "parse" /\ e.export) =>
     LET x == Parse(e.q, e.kb, e.csv)
-    IN  PrintT(ToJson([tid |-> tid, l |-> l, entries |-> x.entries, blankcsv |-> x.blankcsv]))
+    IN  PrintT(ToJson([tid |-> tid, l |-> l, entries |-> x.entries, zero |-> x.zero, blankcsv |-> x.blankcsv]))
 
 Step == /\ l >= 1 /\ l <= Len(T.ev) /\ verdict = "ok"
         /\ Export(Ev)
